@@ -174,7 +174,7 @@ def eventV1_eventV1_MarshalJSON : List String := [
 def eventV1_eventV1_Membership : List String := [
   "func func() (string, error)",
   "var content struct { Membership string `json:\"membership\"` }",
-  "if err := json.Unmarshal(e.eventFields.Content, &content); err != nil {",
+  "if err := json.Unmarshal(exactMembersOnly(e.eventFields.Content, &content), &content); err != nil {",
   "return \"\", err",
   "}",
   "if e.StateKey() == nil {",
